@@ -557,6 +557,15 @@ func genC13(g *Gen) {
 	}
 	s0.op("stop")
 	s0.emit(g)
+	// upgrade, then nothing more from the client, then Stop (no request round trip in between:
+	// whatever Stop touches of the upgraded connection is not ordered by one)
+	s2 := newScen("fixed")
+	s2.op("run 1 1")
+	s2.op("connect")
+	s2.send(0, s2.req("starttls", "w", "hs"))
+	s2.send(0, "hello")
+	s2.op("stop")
+	s2.emit(g)
 	// an upgraded session that lasts: requests keep being answered inside the tunnel
 	s1 := newScen("fixed")
 	s1.op("run 1 1")
